@@ -191,7 +191,32 @@ def case_accept(case):
     return r.done(outcome=[cls, eff, warned])
 
 
-GROUPS = {"matrix": case_matrix, "spectrum": case_spectrum, "accept": case_accept}
+def case_dimraise(case):
+    """a model built in a low dimension with a shape parameter that is only valid there: raising the
+    dimension in place is refused, or the result is a valid covariance in the new dimension"""
+    r = R()
+    cls, d0, d1, nu = case["cls"], case["d0"], case["d1"], case["nu"]
+    extra = {"cls": cls, "d0": d0, "d1": d1, "nu": nu}
+    m = getattr(gs, cls)(dim=d0, len_scale=1.0, nu=nu)
+    m.cor(np.array([0.3]))
+    try:
+        m.dim = d1
+    except ValueError:
+        r.eq("refused dimension change leaves the dimension unchanged", int(m.dim), d0, **extra)
+        return r.done(outcome=[cls, d0, d1, "refused"])
+    lo = {"JBessel": d1 / 2 - 1, "SuperSpherical": (d1 - 1) / 2, "TPLSimple": (d1 + 1) / 2}[cls]
+    r.true("accepted dimension change => shape parameter inside the documented bounds of the new dimension", float(m.nu) >= lo - 1e-12, info={"nu": float(m.nu), "lower bound": lo}, **extra)
+    for ls in (0.5, 1.0, 2.0):
+        m.len_scale = ls
+        pos = lattice(d1, {1: 12, 2: 6, 3: 5, 4: 3}[d1], 0.5)
+        dist = np.linalg.norm(pos[:, :, None] - pos[:, None, :], axis=0)
+        Cm = np.asarray(m.covariance(dist))
+        ev = np.linalg.eigvalsh((Cm + Cm.T) / 2)
+        r.true("accepted dimension change => covariance matrix in the new dimension has no negative eigenvalue", ev[0] >= -1e-10 * np.trace(Cm), info=float(ev[0]), len_scale=ls, **extra)
+    return r.done(outcome=[cls, d0, d1, "accepted"])
+
+
+GROUPS = {"matrix": case_matrix, "spectrum": case_spectrum, "accept": case_accept, "dimraise": case_dimraise}
 
 
 def run(chk):
@@ -230,6 +255,13 @@ def run(chk):
                 if "dim" in dimkw:
                     ac.append({"cls": cls, "route": "setter", "kw": kw})
     chk.run("accept", case_accept, ac, rule="class x {latlon} x {temporal} x dimension argument {none, dim=1..4, spatial_dim=1..3} x {constructor, dim setter}: a model accepted without the invalid-dimension warning has an effective dimension (3 / 4 for lat-lon) in which the class is documented valid, confirmed by eigenvalues on a lattice / sphere point set", chunk=8, max_skip_frac=0.5)
+    dr = []
+    for cls, lo in (("JBessel", lambda d: d / 2 - 1), ("SuperSpherical", lambda d: (d - 1) / 2), ("TPLSimple", lambda d: (d + 1) / 2)):
+        for d0, d1 in itertools.permutations((1, 2, 3, 4), 2):
+            for nu in sorted({lo(d0), lo(d0) + 0.1, lo(d1), lo(d1) - 0.1, 5.0}):
+                if nu >= lo(d0) and (cls != "JBessel" or nu > -0.5 + 1e-9 or d0 == 1):
+                    dr.append({"cls": cls, "d0": d0, "d1": d1, "nu": float(nu)})
+    chk.run("dimraise", case_dimraise, dr, rule="classes with dimension dependent bounds (JBessel, SuperSpherical, TPLSimple) x every ordered pair of dimensions 1-4 x shape parameter at / just above / just below the bounds of both dimensions: the model is built and used in the first dimension, dim is assigned in place; the change is refused or the model is valid in the new dimension (documented bound and eigenvalues)", chunk=8, min_outcomes=2)
     # controls (bounds of SuperSpherical / TPLSimple are violated on purpose through set_arg_bounds)
     cres = []
     for c in ctrl_m:
